@@ -15,6 +15,7 @@ REQUIRED += ["DaeVerif.C16.Props." + n for n in [
     "group_callbacks_are_edges", "random_policy_never_writes", "kernel_bit",
     "kernel_key_injective", "kernel_key_slots",
     "reload_snapshot_drops_counters", "reload_hands_over_state", "reload_floor_leaves_selectable",
+    "reload_leaves_every_group_selectable", "reload_old_order_leaves_group_empty", "kernel_callback_guards",
 ]]
 
 PKG = "component/outbound/dialer"
@@ -39,11 +40,97 @@ def _fields(line):
     return out
 
 
-IDX = {"t": 4, "T": 4, "d": 2, "z": 2, "u": 6, "x": 6, "y": 6}
+IDX = {"t": 4, "T": 4, "a": 4, "b": 4, "d": 2, "z": 2, "u": 6, "x": 6, "y": 6}
 
 
 def typ_idx(tok):
     return IDX[tok[0]] + (1 if tok[1] == "6" else 0)
+
+
+def main_canon(line):
+    """Projection of a state line onto what the property speaks about (applied to BOTH sides):
+    - counters of a slot that is not alive are masked (the property only constrains them at revival);
+    - transition callbacks: (node, collection index, alive), stable-sorted per slot (which NetworkType
+      variant is handed over and the order across different slots are not part of the property);
+    - escalation marker dropped (observed through a log line; its effect is in N/T);
+    - sets: registered flag, member SET, best node present or not (slice order, sorting latencies and
+      the identity of the best node belong to C15)."""
+    if not line.startswith("N["):
+        return line
+    f = _fields(line)
+    ns = []
+    for part in f["N"].split(";"):
+        if not part:
+            continue
+        nid, rest = part.split(":")
+        bits, fc, tc = rest.split("/")
+        fc, tc = fc.split(","), tc.split(",")
+        for k, ix in enumerate((2, 3, 4, 5, 6, 7)):
+            if bits[k] == "0":
+                fc[ix] = tc[ix] = "*"
+        ns.append(f"{nid}:{bits}/{','.join(fc)}/{','.join(tc)}")
+    ts = sorted(((int(x[:-3]), typ_idx(x[-3:-1])), i, x[-1]) for i, x in enumerate(t for t in f["T"].split(",") if t))
+    tstr = ",".join(f"{k[0]}.{k[1]}={a}" for k, _, a in ts)
+    ss = []
+    for x in f["S"].split(";"):
+        if x:
+            m = re.match(r"(\d+\.\d+[ai])\[([^\]]*)\]m=([^:]*):", x)
+            ents = sorted(int(e.split(":")[0]) for e in m.group(2).split(",") if e)
+            ss.append(f"{m.group(1)}{ents}{'-' if m.group(3) == '-' else '+'}")
+    return f"N[{';'.join(ns)}] T[{tstr}] G[{f['G']}] S[{';'.join(ss)}] K[{f['K']}] P[{f['P']}]"
+
+
+def kernel_canon(line):
+    """kernel stream: alive flags, set sizes, kernel bits (impl prints exactly this; the model's full
+    state line is projected)."""
+    if not line.startswith("N["):
+        return line
+    f = _fields(line)
+    a = ";".join(p.split("/")[0] for p in f["N"].split(";") if p)
+    lens = []
+    for x in f["S"].split(";"):
+        if x:
+            m = re.match(r"\d+\.\d+[ai]\[([^\]]*)\]", x)
+            lens.append(str(len([e for e in m.group(1).split(",") if e])))
+    return f"A[{a}] L[{','.join(lens)}] K[{f['K']}]"
+
+
+def reload_oracle(kop_lines, kimpl_lines, report, max_reports=3):
+    """After every real ControlPlane.InheritDialerHealthFrom: every group of the new generation that
+    has members (and keeps alive sets, i.e. is not `fixed`) has at least one alive node per type."""
+    groups, order, n_checked, n_rep = {}, [], 0, 0
+    for i, (op, im) in enumerate(zip(kop_lines, kimpl_lines)):
+        w = op.split()
+        if not w:
+            continue
+        if w[0] == "scenario":
+            groups, order = {}, []
+        elif w[0] == "group":
+            g = int(w[1])
+            groups[g] = (w[3], 0 if w[5] == "-" else len(w[5].split(",")))
+            if w[3] != "fixed":
+                order.append(g)
+        elif w[0] == "reload":
+            m = re.search(r"L\[([^\]]*)\]", im)
+            lens = [int(x) for x in m.group(1).split(",") if x] if m else []
+            for tok in w[1:]:
+                if tok == "|":
+                    break
+                g = int(tok.split("/")[0])
+                pol, nm = groups.get(g, ("fixed", 0))
+                if pol == "fixed" or nm == 0:
+                    continue
+                k = order.index(g) * 6
+                n_checked += 1
+                if any(x == 0 for x in lens[k:k + 6]):
+                    if n_rep < max_reports:
+                        report(f"implementation violates `a reload leaves every non-empty group at least one selectable node` "
+                               f"at line {i + 1}: after ControlPlane.InheritDialerHealthFrom group {g} ({pol}, {nm} members) "
+                               f"has alive-set sizes {lens[k:k + 6]} (order d4,d6,t4,t6,u4,u6)",
+                               {"clause": "reload floor", "line": i + 1, "op": op, "impl": im,
+                                "scenario_ops": [o for o in kop_lines[max(0, i - 120):i + 1]]})
+                    n_rep += 1
+    return n_checked, n_rep
 
 
 def impl_oracles(op_lines, impl_lines, report, max_reports=5):
@@ -172,7 +259,7 @@ def run(ctx):
         return 2
     if not ctx.driver("c16drv", ops, model):
         ctx.proof_failures.append("model driver c16drv failed to run")
-    mism = ctx.diff_streams(ops, impl, model, "c16")
+    mism = ctx.diff_streams(ops, impl, model, "c16", canon=main_canon)
 
     op_lines, impl_lines = read_lines(ops), read_lines(impl)
     # scenario-relative replay: the ops of the scenario containing the first mismatching line
@@ -217,13 +304,13 @@ def run(ctx):
         if not ctx.driver("c16drv", kops, kmodel):
             ctx.proof_failures.append("model driver c16drv failed to run (kernel stream)")
 
-        def konly(line):
-            m = re.search(r"K\[[^\]]*\]", line)
-            return m.group(0) if m else line
+        konly = kernel_canon
+        n_rel, _ = reload_oracle(kop_lines, read_lines(kimpl), lambda what, obj: ctx.report(what, obj))
+        ctx.cov["reload_oracle_groups_checked"] = n_rel
         kmism = ctx.diff_streams(kops, kimpl, kmodel, "c16k", canon=konly)
         for ln, op, im, mo in kmism[:5]:
-            ctx.report(f"kernel connectivity map differs from the proved model at line {ln} op `{op[:60]}`: "
-                       f"real map {konly(im)} model {konly(mo)}",
+            ctx.report(f"real groups / kernel connectivity map differ from the proved model at line {ln} op `{op[:60]}`: "
+                       f"real {konly(im)} model {konly(mo)}",
                        {"stream": "c16k", "line": ln, "op": op, "impl": im, "model": mo,
                         "replay": "VERIF_SEED=%d ./check C16 %s" % (ctx.seed, ctx.tier)})
         n_k = len(kop_lines)
